@@ -177,11 +177,28 @@ def index_of(t: Term):
     t = strip(t)
     if t[0] != "sub" or not is_const(t[2]) or not isinstance(t[2][1], int):
         return None
-    r = abs_range(t[1]) if strip(t[1])[0] == "slice" else (strip(t[1]), 0, 0)
-    if r is None:
-        return None
-    root, start, end = r
     k = t[2][1]
-    if k >= 0:
-        return root, ("front", start + k)
-    return root, ("back", end + k)
+    cur = strip(t[1])
+    pos = ("front", k) if k >= 0 else ("back", k)
+    while cur[0] == "slice":
+        b = slice_bounds(cur)
+        if b is None:
+            return None
+        lo, hi = (0 if b[1] is None else b[1]), b[2]
+        if lo < 0:
+            return None
+        if pos[0] == "front":
+            if hi is not None and hi > 0 and pos[1] >= hi - lo:
+                return None                   # outside the slice
+            if hi is not None and hi < 0:
+                pass                          # front index unaffected by trimming the tail (bounds are C09/C14's concern)
+            pos = ("front", pos[1] + lo)
+        else:
+            if hi is None:
+                pass
+            elif hi < 0:
+                pos = ("back", pos[1] + hi)
+            else:
+                pos = ("front", hi + pos[1])  # x[:n][-k] is x[n-k] when len(x) >= n
+        cur = strip(b[0])
+    return cur, pos
